@@ -18,13 +18,23 @@ for name in sorted(idx):
         what = e.get("what", "").split(" ", 3)[-1][:110]
         print("| %s | %s | %s | %s |" % (name[7:-6], what, c, "caught" if r and r["caught"] else ("MISSED" if r else "not run")))
 print()
-print("| seeded change | what it does (one line) | own check | other checks run |")
-print("|---|---|---|---|")
-for d in sorted(glob.glob(os.path.join(V, "seeded", "*"))):
+print("| seeded change | what it does (one line) | checks as they stood when it arrived | own check now | other checks run |")
+print("|---|---|---|---|---|")
+
+
+def natural(d):
+    b = os.path.basename(d)
+    p, n = b.split("-")
+    return (p, int(n))
+
+
+for d in sorted(glob.glob(os.path.join(V, "seeded", "*")), key=natural):
     mp = os.path.join(d, "meta.json")
     if not os.path.exists(mp):
         continue
     m = json.load(open(mp))
+    if "breaks_property" not in m:
+        continue        # not evaluated with the current checks yet
     own = m["breaks_property"]
     notes = m.get("needs_to_manifest", "")
     first = ""
@@ -35,4 +45,11 @@ for d in sorted(glob.glob(os.path.join(V, "seeded", "*"))):
             break
     o = m["checks"].get(own, {})
     others = ", ".join("%s: %s" % (c, "caught" if v["caught"] else "missed") for c, v in m["checks"].items() if c != own)
-    print("| %s | %s | %s | %s |" % (m["id"], first.replace("|", "/"), "caught" if o.get("caught") else "MISSED", others or "-"))
+    fe = m.get("first_evaluation", {}).get("checks", {}).get(own)
+    if fe is None:
+        was = "see text" if natural(d)[1] <= 4 else "not recorded"
+    elif fe.get("exit") == 2:
+        was = "harness error"
+    else:
+        was = "caught" if fe.get("caught") else "missed"
+    print("| %s | %s | %s | %s | %s |" % (m["id"], first.replace("|", "/"), was, "caught" if o.get("caught") else "MISSED", others or "-"))
